@@ -436,6 +436,15 @@ fn ch(class: u64, i: usize) -> char {
     }
 }
 
+/// a message whose Display writes two characters and then panics
+struct Exploding;
+impl fmt::Display for Exploding {
+    fn fmt(&self, f: &mut fmt::Formatter<'_>) -> fmt::Result {
+        f.write_str("zz")?;
+        panic!("Display of the message panicked");
+    }
+}
+
 fn check_width(idx: usize, case: &Value) -> Option<Value> {
     let classes: Vec<u64> = case["text"].as_array().unwrap().iter().map(|v| v.as_u64().unwrap()).collect();
     let chars: Vec<char> = classes.iter().enumerate().map(|(i, c)| ch(*c, i + idx)).collect();
@@ -491,6 +500,18 @@ fn check_width(idx: usize, case: &Value) -> Option<Value> {
         Ok(Err(e)) => return Some(json!({"what": "encoder from configuration failed", "pattern": pattern, "error": e})),
         Err(p) => return Some(json!({"what": "PatternEncoder::new panicked", "pattern": pattern, "error": p})),
     };
+    // an earlier record of this thread that went wrong half-way - its sink failed after a few bytes, or its message's
+    // Display implementation panicked - must leave nothing behind in the width writers
+    {
+        let mut broken = Cap::new(vec![]);
+        broken.fail_after = Some((idx % 5) * 3);
+        let earlier = Pieces(&pieces);
+        let _ = catch(|| enc.encode(&mut broken, &log::Record::builder().level(log::Level::Info).args(format_args!("{}", earlier)).build()));
+        if idx % 2 == 1 {
+            let mut sink = Cap::new(vec![]);
+            let _ = catch(|| enc.encode(&mut sink, &log::Record::builder().level(log::Level::Info).args(format_args!("{}", Exploding)).build()));
+        }
+    }
     let mut cap = Cap::new(script);
     let msg = Pieces(&pieces);
     let r = catch(|| enc.encode(&mut cap, &log::Record::builder().level(log::Level::Info).args(format_args!("{}", msg)).build()));
